@@ -568,6 +568,40 @@ fn main() {
         let hoists = src["hoist"].as_array().unwrap_or(&empty);
         let inlines = src["inline"].as_array().unwrap_or(&empty);
         let mut hoist_hits_total = vec![0usize; hoists.len()];
+        // R7 legitimacy: every inlined accessor must still be exactly the recorded one-line body in /repo
+        for inl in inlines.iter() {
+            if let Some(chk) = inl.get("check") {
+                let cfile = chk["file"].as_str().unwrap();
+                let root = std::path::Path::new(file).ancestors().find(|p| p.join("Cargo.lock").exists()).map(|p| p.to_path_buf());
+                let cpath = match (&root, cfile.starts_with('/')) { (_, true) => std::path::PathBuf::from(cfile), (Some(r), false) => r.join(cfile), (None, false) => std::path::PathBuf::from(cfile) };
+                let ctext = std::fs::read_to_string(&cpath).unwrap_or_else(|e| die(&format!("cannot read {}: {}", cpath.display(), e)));
+                let cast = syn::parse_file(&ctext).unwrap_or_else(|e| die(&format!("cannot parse {}: {}", cpath.display(), e)));
+                let mut call: Vec<&Item> = Vec::new();
+                collect_items(&cast.items, &mut call);
+                let want_ty = chk["impl"].as_str().unwrap();
+                let want_fn = chk["fn"].as_str().unwrap();
+                let want_body: String = chk["body"].as_str().unwrap().chars().filter(|c| !c.is_whitespace()).collect();
+                let mut ok = false;
+                for it in call {
+                    if let Item::Impl(im) = it {
+                        if im.trait_.is_none() && type_last_ident(&im.self_ty) == want_ty {
+                            for ii in im.items.iter() {
+                                if let ImplItem::Fn(f) = ii {
+                                    if f.sig.ident == want_fn {
+                                        let stmts = &f.block.stmts;
+                                        if stmts.len() == 1 && norm(&stmts[0].to_token_stream()) == want_body { ok = true; }
+                                    }
+                                }
+                            }
+                        }
+                    }
+                }
+                if !ok {
+                    eprintln!("vx: LOST-ANCHOR accessor {}::{} in {} is no longer `{}` (R7 inlining refused)", want_ty, want_fn, cpath.display(), chk["body"].as_str().unwrap());
+                    std::process::exit(3);
+                }
+            }
+        }
         let mut all: Vec<&Item> = Vec::new();
         collect_items(&ast.items, &mut all);
         for sraw in src["select"].as_array().unwrap_or_else(|| die("no select")) {
